@@ -19,4 +19,9 @@ theorem C15_stream_decoder_from_source (fuel : Nat) (r : Reader) (m a : Nat) :
     Gen.vbint.readFrom fuel r m a = readVb fuel r m a :=
   Tie.Stream.readFrom_eq fuel r m a
 
+/-- in `ReadPacket`, `fixedHeader.ReadFrom`/`ReadRemaining`, `bits.ReadFrom` and `vbint.ReadFrom` every error test reads
+`err != nil`: an error is never taken for success nor success for an error -/
+theorem C08_error_tests_from_source : Gen.streamErrTests.length = 5 ∧ Gen.streamErrTests.all (·.2) = true :=
+  Tie.Stream.err_tests
+
 end Mq
